@@ -25,10 +25,10 @@ struct St
 } st;
 std::set<const void *> *live_tracked;
 
-enum { P_TASK_BEFORE_CTOR_DONE = 0, P_FINISHED_TRUE, P_FINISHED_FALSE, P_GET_BLOCKED, P_GET_AFTER_FINISHED, P_DESTROY_BEFORE_DONE, P_BURST_GT_256, P_EXEC_ON_OTHER_THREAD, P_EXEC_ON_CALLER, P_REINIT, P_NESTED_HANDOVER };
+enum { P_TASK_BEFORE_CTOR_DONE = 0, P_FINISHED_TRUE, P_FINISHED_FALSE, P_GET_BLOCKED, P_GET_AFTER_FINISHED, P_DESTROY_BEFORE_DONE, P_BURST_GT_256, P_EXEC_ON_OTHER_THREAD, P_EXEC_ON_CALLER, P_REINIT, P_NESTED_HANDOVER, P_EXPECT_RUN };
 const char *probe_names[] = {"task_started_before_owner_constructor_returned", "finished_polled_true", "finished_polled_false",
                              "get_really_blocked", "get_after_finished_true", "destroy_began_before_task_done", "burst_larger_than_pipe",
-                             "task_ran_on_other_thread", "task_ran_on_calling_thread", "tasking_system_reinitialised_with_tasks_in_flight", "function_hands_over_a_function_and_waits_for_it", nullptr};
+                             "task_ran_on_other_thread", "task_ran_on_calling_thread", "tasking_system_reinitialised_with_tasks_in_flight", "function_hands_over_a_function_and_waits_for_it", "function_ran_while_the_caller_only_let_time_pass", nullptr};
 const char *no_faults[] = {nullptr};
 
 void reset()
@@ -155,7 +155,7 @@ void describe(char *buf, size_t n)
 {
   static const char *api[] = {"schedule", "async", "AsyncTask"};
   static const char *ty[] = {"int", "string", "vector<int>", "Tracked"};
-  static const char *an[] = {"finished", "valid", "wait", "get", "idle"};
+  static const char *an[] = {"finished", "valid", "wait", "get", "idle", "expect-run-without-waiting"};
   int k = snprintf(buf, n, "{\"init_threads\": %d, \"reinit_threads\": %d, \"interleave\": %d, \"burst\": %d, \"sporadic_tasks_after_idle\": %d, \"items\": [", plan.init_threads, plan.reinit_threads, plan.interleave, plan.burst, plan.sporadic);
   for (int i = 0; i < plan.nitems && k < (int)n - 300; i++) {
     const C02Item &it = plan.items[i];
@@ -280,6 +280,21 @@ void c02_wait_one(int id)
     sim_yield();
   if (!st.exec_done[id])
     sim_fail("C02:never-executed", "a function handed to schedule() after an idle period did not run within the fair bound although the caller only waited (lost wake-up)");
+  sim_set_fair(0);
+}
+
+void c02_wait_item(int id)
+{
+  // "executed ... eventually, with no further action required from the caller": the caller neither waits on the handle nor
+  // destroys it, it just lets time pass (fair, fault-free phase)
+  sim_set_fair(1);
+  unsigned long long bound = sim_steps() + 30000ULL;
+  while (!st.exec_done[id] && sim_steps() <= bound)
+    sim_yield();
+  if (!st.exec_done[id])
+    sim_fail("C02:never-executed", "the function of item %d did not run within the fair bound while the caller did nothing but let time pass (no wait(), get() or destruction)", id);
+  else
+    sim_probe(P_EXPECT_RUN);
   sim_set_fair(0);
 }
 
